@@ -139,12 +139,24 @@ pub fn run(outdir: &Path, tier: &str, _seed: u64, shards: usize) {
         vars.push(VarDef { name: vname.clone(), ty: t.clone(), default: Some(literal(&t)) });
         plan.push(("variable_with_default", "scalar", vname, t));
     }
+    // members of an input object that declare a DEFAULT VALUE in the schema: the member's type is what the
+    // expression says, with or without it
+    let mut dholder = vec![];
+    let mut input_defaults = vec![];
+    for (i, t) in shapes("Int", depth.min(3)).into_iter().enumerate() {
+        let name = format!("e{}", i);
+        dholder.push((name.clone(), t.clone()));
+        input_defaults.push(("DHolder".to_string(), name.clone(), literal(&t)));
+        plan.push(("input_field_with_default", "scalar", name, t));
+    }
+    defs.push(TypeDef::Input { name: "DHolder".into(), fields: dholder, one_of: false });
+    vars.push(VarDef { name: "dholder".into(), ty: GType::named("DHolder"), default: None });
     defs.push(TypeDef::Input { name: "OneHolder".into(), fields: one_members, one_of: true });
     vars.push(VarDef { name: "one".into(), ty: GType::named("OneHolder"), default: None });
     vars.push(VarDef { name: "holder".into(), ty: GType::named("Holder"), default: None });
     defs.push(TypeDef::Input { name: "Holder".into(), fields: holder, one_of: false });
     defs.push(TypeDef::Object { name: "Query".into(), implements: vec![], fields: qfields });
-    let schema = SchemaDoc { defs, schema_block: None , input_defaults: vec![] };
+    let schema = SchemaDoc { defs, schema_block: None, input_defaults };
     let doc = QueryDoc { defs: vec![QDef::Op { kind: OpKind::Query, name: Some("Q".into()), vars, sel }] };
     let qtext = doc.render();
     let opts = Opts { operation_name: Some("Q".into()), ..Opts::default() };
@@ -189,6 +201,7 @@ pub fn run(outdir: &Path, tier: &str, _seed: u64, shards: usize) {
                 "response" => "ResponseData",
                 "narrowed_response" => "QNarrow",
                 "variable" | "variable_with_default" => "Variables",
+                "input_field_with_default" => "DHolder",
                 _ => "Holder",
             };
             let obs: Option<RType> = if *pos == "oneof_member" {
@@ -231,7 +244,7 @@ pub fn run(outdir: &Path, tier: &str, _seed: u64, shards: usize) {
         outdir,
         shards,
         json!({
-            "rule": format!("every well-formed type expression of list depth <= {} (all placements of !) x 5 kinds of named type x {{response field, variable, input field}} x {{SDL, introspection JSON, SDL with the built-in scalars declared}}, plus the fields of an object that narrows its interface's declarations, the members of an @oneOf input and variables with a default value (depth <= 3); non-trivial = has a list or a !; distinct by (format, position, kind, type)", depth),
+            "rule": format!("every well-formed type expression of list depth <= {} (all placements of !) x 5 kinds of named type x {{response field, variable, input field}} x {{SDL, introspection JSON, SDL with the built-in scalars declared}}, plus the fields of an object that narrows its interface's declarations, the members of an @oneOf input, variables with a default value and input-object members with a default value (depth <= 3); non-trivial = has a list or a !; distinct by (format, position, kind, type)", depth),
             "exhaustive": true,
             "distribution": dist,
             "samples": samples,
